@@ -295,6 +295,10 @@ def run(prog, chk, tier):
             chain = " => ".join(x.split(" -> ")[-1].split(".")[-1] for x in s.chain[-4:])
             chk.fail(rule, s.fn, s.construct, s.where, "%s can escape %s%s" % (s.exc, q.split(".")[-2] + "." + q.split(".")[-1], (" via " + chain) if chain else ""))
         chk.ok("C14.entry-analysed", q, "%d escaping (class, construct) pairs" % len(escs), "%s:%d" % (fi.file, fi.lineno), "entry point interpreted; allowed escapes: FormatError / ValueError / OSError families")
+    # user-supplied decryptor lists may mix encryptor kinds: the selector filter must not see foreign kinds (AttributeError)
+    from rules import bec2
+
+    bec2.selector_rules(prog, chk, "C14")
     chk.info["implicit_raiser_sites_examined"] = an.sites_examined
     chk.info["implicit_raiser_sites_discharged_by_facts"] = an.sites_discharged
     chk.info["functions_analysed"] = len(an.functions_analysed)
